@@ -14,4 +14,6 @@ PROPS = {
     "C09": dict(pkg="c09", run="^TestC09$", shards=8, timeout_quick=600, timeout_thorough=2400, net=109),
     "C11": dict(pkg="c11", run="^TestC11$", shards=8, timeout_quick=600, timeout_thorough=2400, net=111),
     "C12": dict(pkg="c12", run="^TestC12$", shards=8, timeout_quick=600, timeout_thorough=2400, net=112),
+    "C02": dict(pkg="c02", run="^TestC02$", shards=8, timeout_quick=600, timeout_thorough=2400, net=102),
+    "C03": dict(pkg="c03", run="^TestC03$", shards=8, timeout_quick=600, timeout_thorough=2400, net=103),
 }
